@@ -173,6 +173,8 @@ def check_atomic_queue_geometry(chk, m, K, min_depth=8):
     chk.ob("S10.atomic-queue-geometry", inst + " capacity", ok,
            "the queue accepts the %d undrained fibre_run_atomic requests of the property's scope and its depth fits the 32 flag bits (depth %d)"
            % (min_depth, ql) if ok else
+           ("the queue has %d slots but its flag word has 32 bits: `1 << slot` for slots 32 and above sets no (or another slot's) flag, so a "
+            "request placed there is accepted by fibre_run_atomic and never received" % ql) if ql > 32 else
            "the queue has %d slot(s) (%d free): fibre_run_atomic refuses the %s undrained request although the property's scope allows %d, "
            "and the refused fibre is never dispatched" % (ql, nf, "2nd" if nf == 1 else "%dth" % (nf + 1), min_depth), loc, "kernel")
     z = [n for n in ("sendp", "full_flags", "receivep") if ival(f[n]) != 0]
